@@ -330,6 +330,8 @@ fn check_project_in(ctx: &Ctx, p: &Proj, rec: &Rec, root: &Path) -> Verdict {
     opts.cwd = Some(root.to_path_buf());
     opts.rust_log = Some("circomspect_parser=debug".into());
     opts.cpu_secs = 60;
+    let sarif_path = root.join("zz-out.sarif");
+    opts.sarif = Some(sarif_path.clone());
     let out = binrun::run(&ctx.repo_bin, &opts).map_err(|e| Bad::new(format!("INFRA {e}")))?;
     let render = || {
         let mut s = format!("named: {:?}\nlibs: {:?}\nsymlinks: {:?}\n", p.named, p.libs, p.symlinks);
@@ -420,6 +422,22 @@ fn check_project_in(ctx: &Ctx, p: &Proj, rec: &Rec, root: &Path) -> Verdict {
             let c = std::fs::canonicalize(root.join(file)).unwrap_or_else(|_| PathBuf::from(file));
             if !exp.named.contains(&c) {
                 return Err(Bad::new(format!("a finding is displayed for {file}, which was only included: {d:?}")).sig("C19:finding-in-included-file").rendered(render()));
+            }
+        }
+    }
+    // 3b. the SARIF file of the same run mentions named files only as well
+    if let Some(text) = &out.sarif_text {
+        let doc = binrun::parse_sarif(text).map_err(|e| Bad::new(e).sig("C19:sarif-parse").rendered(render()))?;
+        rec.class("sarif_files_checked");
+        for r in &doc.results {
+            for (uri, ..) in r.locations.iter().chain(r.related.iter()) {
+                let path = uri.trim_start_matches("file://");
+                let c = std::fs::canonicalize(root.join(path)).unwrap_or_else(|_| PathBuf::from(path));
+                if !exp.named.contains(&c) {
+                    return Err(Bad::new(format!("the SARIF file holds a result [{}] located in {path}, which was only included", r.rule_id))
+                        .sig("C19:sarif-result-in-included-file")
+                        .rendered(render()));
+                }
             }
         }
     }
